@@ -129,20 +129,32 @@ func structureMutants(s *chain.Sim, p chain.BlockPlan, rng *rand.Rand) []mutant 
 				sig := &mb.Transactions[i].Signatures[rng.Intn(len(t.Signatures))]
 				huge := []uint64{uint64(len(t.SiacoinInputs)), 1 << 20, math.MaxUint64}[rng.Intn(3)]
 				sig.CoveredFields.WholeTransaction = false
-				switch rng.Intn(6) {
-				case 0:
-					sig.CoveredFields.SiacoinInputs = []uint64{huge}
-				case 1:
-					sig.CoveredFields.SiacoinOutputs = []uint64{huge}
-				case 2:
-					sig.CoveredFields.MinerFees = []uint64{huge}
-				case 3:
-					sig.CoveredFields.ArbitraryData = []uint64{huge}
-				case 4:
-					sig.CoveredFields.Signatures = []uint64{huge}
-				default:
-					sig.CoveredFields.FileContractRevisions = []uint64{huge}
+				// an index list of 1-4 entries in arbitrary order (core never requires sorted lists): at least one
+				// entry out of range, the others in range when the field has elements
+				txn := &mb.Transactions[i]
+				lens := []int{len(txn.SiacoinInputs), len(txn.SiacoinOutputs), len(txn.FileContracts), len(txn.FileContractRevisions),
+					len(txn.StorageProofs), len(txn.SiafundInputs), len(txn.SiafundOutputs), len(txn.MinerFees), len(txn.ArbitraryData), len(txn.Signatures)}
+				fields := []*[]uint64{&sig.CoveredFields.SiacoinInputs, &sig.CoveredFields.SiacoinOutputs, &sig.CoveredFields.FileContracts,
+					&sig.CoveredFields.FileContractRevisions, &sig.CoveredFields.StorageProofs, &sig.CoveredFields.SiafundInputs,
+					&sig.CoveredFields.SiafundOutputs, &sig.CoveredFields.MinerFees, &sig.CoveredFields.ArbitraryData, &sig.CoveredFields.Signatures}
+				f := rng.Intn(len(fields))
+				if rng.Intn(3) > 0 { // prefer a field that has elements, so that in-range entries can surround the bad one
+					for try := 0; try < 10 && lens[f] == 0; try++ {
+						f = rng.Intn(len(fields))
+					}
 				}
+				huge = []uint64{uint64(lens[f]), uint64(lens[f]) + 6, 1 << 20, math.MaxUint64}[rng.Intn(4)]
+				n := 1 + rng.Intn(4)
+				list := make([]uint64, n)
+				bad := rng.Intn(n)
+				for k := range list {
+					if k == bad || lens[f] == 0 {
+						list[k] = huge
+					} else {
+						list[k] = uint64(rng.Intn(lens[f]))
+					}
+				}
+				*fields[f] = list
 				return true
 			}, true)
 			add("v1:covered-sigs-out-of-range", func(mb *types.Block, _ *consensus.V1BlockSupplement) bool {
